@@ -34,7 +34,7 @@ partial def runNd (d : NDict) (out : List String) : List String → Option (List
 def handleC06 : List String → Option String
   | ["c06.choose", a, o, rel] => do
     let a ← parseName a; let o ← parseOptName o; let rel ← parseBool rel
-    some (exceptName (chooseRelativity a o rel))
+    some (exceptName (chooseRelativity06 a o rel))
   | "c06.nd" :: script => do
     let tr ← runNd NDict.empty [] script
     some ("|".intercalate tr)
